@@ -457,6 +457,20 @@ struct Run
             Payload diff(t, b2.data(), b2.size());
             if ((a == diff) || (diff == a))
                 c.violation("C14:payload-equality-disagrees-with-content", "payloads differing in the last byte compare equal", in);
+            {
+                // other length (a prefix / an extension by one byte), first byte differs, other type with the same bytes
+                Payload prefix(t, b.data(), b.size() - 1);
+                Bytes ext = b;
+                ext.push_back(0);
+                Payload longer(t, ext.data(), ext.size());
+                Bytes b3 = b;
+                b3[0] ^= 0x01;
+                Payload diff0(t, b3.data(), b3.size());
+                Payload otherType(PayloadType(static_cast<uint32_t>(t.getType() ^ 0x40u)), b.data(), b.size());
+                if ((a == prefix) || (prefix == a) || (a == longer) || (longer == a) || (a == diff0) || (diff0 == a) || (a == otherType) || (otherType == a))
+                    c.violation("C14:payload-equality-disagrees-with-content", "payloads that differ in length, first byte or type compare equal", in);
+                c.count("payload_equality_discrimination_checks", 4);
+            }
             if (a.getRawPayload() == moved.getRawPayload() || a.getRawPayload() == massign.getRawPayload())
                 c.violation("C14:copy-shares-payload-storage", "payload copy shares the data pointer", in);
             massign.setRawPayloadType(static_cast<uint8_t>(massign.getRawPayloadType() + 1));
@@ -520,6 +534,18 @@ struct Run
                 c.violation("C14:payload-copy-or-move-differs-from-source", "TECMP::Payload", "TECMP::Payload");
             if (!(a == a) || !(a == asg) || !(asg == a))
                 c.violation("C14:payload-equality-not-reflexive", "TECMP::Payload equality is not reflexive / disagrees with content", "TECMP::Payload");
+            // equality discriminates: other type, other length (a prefix), one differing byte (first / last)
+            {
+                TECMP::Payload otherType(TECMP::PayloadType(TECMP::PayloadType::lin), b.data(), b.size());
+                TECMP::Payload prefix(TECMP::PayloadType(TECMP::PayloadType::can), b.data(), b.size() - 1);
+                Bytes b1 = b, b2 = b;
+                b1[0] ^= 0x01;
+                b2[b2.size() - 1] ^= 0x80;
+                TECMP::Payload d1(TECMP::PayloadType(TECMP::PayloadType::can), b1.data(), b1.size()), d2(TECMP::PayloadType(TECMP::PayloadType::can), b2.data(), b2.size());
+                if ((a == otherType) || (otherType == a) || (a == prefix) || (prefix == a) || (a == d1) || (d1 == a) || (a == d2) || (d2 == a))
+                    c.violation("C14:payload-equality-disagrees-with-content", "TECMP::Payload objects that differ in type, length or one byte compare equal", "TECMP::Payload");
+                c.count("payload_equality_discrimination_checks", 4);
+            }
             TECMP::Payload z1(TECMP::PayloadType(TECMP::PayloadType::lin), nullptr, 0), z2(TECMP::PayloadType(TECMP::PayloadType::lin), nullptr, 0);
             if (!(z1 == z1) || (z1 == z2) != (z2 == z1))
                 c.violation("C14:payload-equality-not-reflexive", "zero-length TECMP::Payload", "TECMP::Payload");
